@@ -545,6 +545,12 @@ interface.import_plugins(sys.argv[1])
 for other_folder in sys.argv[4:]:
     # a second plugin folder whose module happens to have the same file name: its classes come on top of the first one's
     interface.import_plugins(other_folder)
+    # ... and are there: a CID can name them
+    try:
+        interface.Cid().read("probe", [["D", "Format", "Delimited"], ["F", "x", "", "", "", "SecondFolder", ""]])
+    except errors.InterfaceError as error:
+        print("class of the second plugin folder not resolved: %s" % error, file=sys.stderr)
+        sys.exit(7)
 # what a program does between importing its plugins and using them: allocate (the collector runs), maybe collect explicitly
 junk = [[str(i), [i]] for i in range(200000)]
 del junk
